@@ -270,6 +270,18 @@ def run_case(case, tier, seed):
                     same = [f for f in fails if _base(f[0]) == _base(cl.name)]
                     if not same and cl.name == 'no_exception':
                         same = [f for f in fails if f[0] == 'no_exception']
+                    if same and v.how.startswith('tolerance'):
+                        # candidate produced by the relative-tolerance stage: a rounding-level difference looks material
+                        # wherever the compared quantity crosses zero.  A wrong formula persists when the inputs move by
+                        # 0.1 %; a cancellation artefact does not.
+                        persist = 0
+                        for eps in (1.001, 0.999, 1.0007):
+                            pv = {k: x * eps ** (1 + (i % 3)) for i, (k, x) in enumerate(sorted(vals.items()))}
+                            CE2, skip2 = _run_conc(case, pv, None)
+                            if not skip2 and any(_base(f[0]) == _base(cl.name) for f in CE2.failures):
+                                persist += 1
+                        if persist < 2:
+                            same = []
                     if same:
                         confirmed = dict(case=case.name, claim=_base(same[0][0]), values=vals,
                                          observed=[same[0][2], same[0][3]], how='solver model (%s), replayed' % v.how,
